@@ -192,7 +192,121 @@ def table_for_tree(tree):
                 out[key] = None
                 continue
             out[key] = {"params": params_of(fn), "locals": {k: list(v) for k, v in sorted(sig.items())}}
+            if isinstance(getattr(fn, "_parent", None), (ast.Module, ast.ClassDef)):
+                out[key]["body"] = body_signature(fn)
     return {k: v for k, v in out.items() if v is not None}
+
+
+def body_signature(fn):
+    """Hash of a function's body that does not depend on the spelling of its locals, its parameters, or of the plain-name callees (so that several functions of one
+    module can be renamed together): used to recognise a renamed function."""
+    loc = scope_locals(fn) | {p.lstrip("*") for p in params_of(fn)}
+    saved = []
+    callees = {id(n.func) for n in ast.walk(fn) if isinstance(n, ast.Call) and isinstance(n.func, ast.Name)}
+    def private(x):
+        return x.startswith("_") and not x.startswith("__")
+    for n in ast.walk(fn):
+        if isinstance(n, ast.Name):
+            if id(n) in callees or private(n.id):
+                saved.append((n, "id", n.id))
+                n.id = "__CALL__"
+            elif n.id in loc:
+                saved.append((n, "id", n.id))
+                n.id = "__US__"
+        elif isinstance(n, ast.Attribute) and private(n.attr):
+            saved.append((n, "attr", n.attr))
+            n.attr = "__PRIV__"
+        elif isinstance(n, ast.arg):
+            saved.append((n, "arg", n.arg))
+            n.arg = "__US__"
+        elif isinstance(n, ast.ExceptHandler) and n.name:
+            saved.append((n, "name", n.name))
+            n.name = "__US__"
+    body = fn.body
+    if body and isinstance(body[0], ast.Expr) and isinstance(body[0].value, ast.Constant) and isinstance(body[0].value.value, str):
+        body = body[1:]
+    try:
+        txt = "\n".join(ast.unparse(s) for s in body) + "|" + ",".join(ast.unparse(d) for d in fn.decorator_list) + "|" + str(len(params_of(fn)))
+    except Exception:
+        txt = None
+    finally:
+        for n, f, v in saved:
+            setattr(n, f, v)
+    if txt is None or len(body) == 0:
+        return None
+    return hashlib.sha1(txt.encode()).hexdigest()[:12]
+
+
+def function_renames(tree, rel):
+    """{new name: recorded name} for module-level functions and methods of this file that were renamed (same body signature, unique on both sides, same class)."""
+    tab = load_table().get(rel)
+    if not tab:
+        return {}
+    cur = {}
+    for fn in ast.walk(tree):
+        if isinstance(fn, (ast.FunctionDef, ast.AsyncFunctionDef)) and isinstance(getattr(fn, "_parent", None), (ast.Module, ast.ClassDef)):
+            cur.setdefault(fn_path(fn), []).append(fn)
+    missing = [k for k, v in tab.items() if isinstance(v, dict) and k not in cur and v.get("body")]
+    new = [k for k in cur if k not in tab and len(cur[k]) == 1]
+    if not missing or not new:
+        return {}
+    by_ref, by_cur = {}, {}
+    for k in missing:
+        by_ref.setdefault((k.rpartition(".")[0], tab[k]["body"]), []).append(k)
+    for k in new:
+        b = body_signature(cur[k][0])
+        if b is not None:
+            by_cur.setdefault((k.rpartition(".")[0], b), []).append(k)
+    out = {}
+    for key, ms in by_ref.items():
+        ns = by_cur.get(key, [])
+        if len(ms) == 1 and len(ns) == 1:
+            out[ns[0]] = ms[0]
+    return out
+
+
+def apply_function_renames(tree, renames, cross=None):
+    """Rename definitions and references: `renames` = {new path: old path} of this file; `cross` = {new plain name: old plain name} of functions imported from other
+    repository modules.  References are plain names, `self.<name>` / `cls.<name>` / `<Class>.<name>` attributes for methods, and import aliases."""
+    plain = {}
+    meth = {}
+    for newp, oldp in renames.items():
+        nc, _, nn = newp.rpartition(".")
+        oc, _, on = oldp.rpartition(".")
+        if nc:
+            meth[nn] = on
+        else:
+            plain[nn] = on
+    plain.update(cross or {})
+    if not plain and not meth:
+        return 0
+    used = {n.id for n in ast.walk(tree) if isinstance(n, ast.Name)} | {n.attr for n in ast.walk(tree) if isinstance(n, ast.Attribute)}
+    # never rename onto a spelling that is still in use for something else
+    plain = {k: v for k, v in plain.items() if v not in used}
+    meth = {k: v for k, v in meth.items() if v not in used}
+    cnt = 0
+    for n in ast.walk(tree):
+        if isinstance(n, (ast.FunctionDef, ast.AsyncFunctionDef)):
+            par = getattr(n, "_parent", None)
+            if isinstance(par, ast.Module) and n.name in plain:
+                n.name = plain[n.name]
+                cnt += 1
+            elif isinstance(par, ast.ClassDef) and n.name in meth:
+                n.name = meth[n.name]
+                cnt += 1
+        elif isinstance(n, ast.Name) and n.id in plain:
+            n.id = plain[n.id]
+            cnt += 1
+        elif isinstance(n, ast.Attribute) and n.attr in meth:
+            n.attr = meth[n.attr]
+            cnt += 1
+        elif isinstance(n, ast.Attribute) and n.attr in plain and isinstance(n.value, ast.Name):
+            n.attr = plain[n.attr]      # module.<function>
+            cnt += 1
+        elif isinstance(n, ast.alias) and n.name in plain and n.asname is None:
+            n.name = plain[n.name]
+            cnt += 1
+    return cnt
 
 
 _cache = None
